@@ -45,9 +45,14 @@ def handle (j : Json) : R Json := do
     | .ok v => do pure (some (← listOf implOfJson v))
     | .error _ => pure none
   let v := Chains.verdict r rules impl
+  -- is this input inside a known-finding class?  (the model mirrors the recorded defect there)
+  let vm := match stages with
+    | .ok s => Chains.verdict r rules (some (s.final.map fun (o : Out) => (⟨o.pc.rule, o.pc.core, o.pc.loc⟩ : Chains.ImplPC)))
+    | .error _ => { ok := true }
   return jObj [("model", model),
     ("spec", jObj [("ok", toJson v.ok), ("why", Json.str v.why), ("known", Json.str v.known),
-                   ("groups", toJson v.groups), ("maxgroup", toJson v.maxGroup), ("long", toJson v.longChain)]),
+                   ("groups", toJson v.groups), ("maxgroup", toJson v.maxGroup), ("long", toJson v.longChain),
+                   ("model_known", Json.str (if vm.ok then "" else vm.known))]),
     ("scope", jObj [("linear", toJson (!r.circular)), ("wf", toJson (Chains.inputsWF r rules)),
                     ("plain", toJson (rules.all fun x => x.superiors.isEmpty && x.extenders.isNone))])]
 
